@@ -37,6 +37,13 @@ pub struct Case {
     /// fragment offset 0, TTL >= 1)
     #[serde(default)]
     pub ip_tweak: Option<IpTweak>,
+    /// IPv4 header options and TCP options inserted into the request (any request kind)
+    #[serde(default)]
+    pub opts: Option<(Hex, Hex)>,
+    /// the client's address is the responder's own (with equal ports for the requests that have
+    /// ports: the 4-tuple is its own mirror image)
+    #[serde(default)]
+    pub self_addressed: bool,
 }
 
 pub fn ip_tweak() -> impl Strategy<Value = IpTweak> {
@@ -47,7 +54,20 @@ pub fn case_strategy() -> impl Strategy<Value = Case> {
     scenario_quiet(Fam::Any).prop_flat_map(|scn| {
         let v4 = scn.net.is_v4();
         let csum = prop_oneof![5 => Just(None), 1 => prop::sample::select(vec![0u16, 0xffff, 0xdead, 1]).prop_map(Some), 1 => any::<u16>().prop_map(Some)];
-        (Just(scn), prop_oneof![2 => Just(vec![]), 1 => vec(step_leaf(), 0..=6)], req(v4), csum, prop::option::weighted(0.15, mac_unicast()), prop::option::weighted(0.35, ip_tweak())).prop_map(|(scn, hist, req, req_csum, alias_mac, ip_tweak)| Case { scn, hist, req, req_csum, alias_mac, ip_tweak })
+        (Just(scn), prop_oneof![2 => Just(vec![]), 1 => vec(step_leaf(), 0..=6)], req(v4), csum, prop::option::weighted(0.15, mac_unicast()), prop::option::weighted(0.35, ip_tweak()), prop::option::weighted(0.3, (ip4_options(), prop_oneof![1 => Just(Hex(vec![])), 3 => tcp_options()])), prop::bool::weighted(0.04)).prop_map(|(mut scn, hist, mut req, req_csum, alias_mac, ip_tweak, opts, self_addressed)| {
+            if self_addressed {
+                scn.net.cip = scn.net.sip;
+                if let Some(d) = &mut scn.cfg.deny {
+                    let c = scn.net.cip;
+                    d.retain(|a| *a != c);
+                }
+                match &mut req {
+                    Req::Syn { sport, dport, .. } | Req::TcpData { sport, dport, .. } | Req::FinAck { sport, dport, .. } | Req::Udp { sport, dport, .. } => *sport = *dport,
+                    _ => {}
+                }
+            }
+            Case { scn, hist, req, req_csum, alias_mac, ip_tweak, opts, self_addressed }
+        })
     })
 }
 
@@ -93,10 +113,19 @@ pub fn run_case(c: &Case, st: &mut Stats) -> Option<(Vec<u8>, Vec<u8>)> {
             return None;
         }
     };
+    if let Some((io, to)) = &c.opts {
+        if let Some(f2) = insert_options(&reqf, io, to) {
+            reqf = f2;
+            st.class(&format!("request-with-options:ip4={}:tcp={}", if io.is_empty() { "none" } else { "present" }, if to.is_empty() { "none" } else { "present" }));
+        }
+    }
     if let Some(v) = c.req_csum {
         if set_l4_checksum(&mut reqf, v) {
             st.class("request-with-wrong-transport-checksum");
         }
+    }
+    if c.self_addressed {
+        st.class("request-from-the-responder's-own-address");
     }
     if let Some(t) = &c.ip_tweak {
         if apply_ip_tweak(&mut reqf, t) {
